@@ -151,7 +151,7 @@ func cmdCheck(args []string) int {
 		fmt.Println("UNDECIDED property=" + *prop + " reason=unknown property")
 		return 2
 	}
-	eng := &Engine{fset: token.NewFileSet(), pkgs: map[string]*packages.Package{}, cfiles: map[string]*ContractFile{}, contracts: map[string]*Contract{}, ghosts: map[string]*GhostFn{}, lemmas: map[string]*Lemma{}, lemmaPkg: map[string]string{}, repo: *repo, contractHome: map[*Contract]string{}, immutable: map[string]bool{}}
+	eng := &Engine{fset: token.NewFileSet(), pkgs: map[string]*packages.Package{}, cfiles: map[string]*ContractFile{}, contracts: map[string]*Contract{}, ghosts: map[string]*GhostFn{}, lemmas: map[string]*Lemma{}, lemmaPkg: map[string]string{}, repo: *repo, contractHome: map[*Contract]string{}, immutable: map[string]bool{}, ghostFields: map[string][]GhostField{}, ghostFieldHome: map[string]string{}}
 	if err := eng.load(pc.Packages); err != nil {
 		fmt.Printf("UNDECIDED property=%s reason=%v\n", *prop, err)
 		return 2
